@@ -53,4 +53,5 @@ CONSTANTS
  Regulate_ = FALSE
  OptFlips = {}
  FreeIdSends = FALSE
+ LateSends = FALSE
  Msgs = {"m1"}
